@@ -8,8 +8,10 @@ import (
 	"time"
 
 	"github.com/oneconcern/datamon/pkg/model"
+	"github.com/oneconcern/datamon/pkg/storage/localfs"
 	"github.com/oneconcern/datamon/pkg/wal"
 	"github.com/segmentio/ksuid"
+	"github.com/spf13/afero"
 
 	"verifsim/simkit"
 )
@@ -21,6 +23,17 @@ func init() {
 }
 
 var walPayloads = []string{"", "hello", "two\nlines\n", "token: notatoken\npayload: looks like yaml\n", "- a\n- b\n", "é unicode ✓", strings.Repeat("long payload ", 120), "{json: \"ish\"}", "trailing space ", "\ttab"}
+
+var walExp time.Duration
+
+// walExpiration asks a throw-away log (over an in-memory directory) for the token expiration the package is built with.
+func walExpiration() time.Duration {
+	if walExp == 0 {
+		st := localfs.New(afero.NewMemMapFs())
+		walExp = wal.New(st, st, wal.Logger(nopLog)).GetExpirationDuration()
+	}
+	return walExp
+}
 
 type walAdd struct {
 	client  int
@@ -50,7 +63,13 @@ func runC19(rc *RunCtx) *simkit.Violation {
 				payloads[i] += fmt.Sprintf(" #%d.%d", c, i)
 			}
 		}
-		pause := t.Pick(0, 0, 300, 1100, 2500)
+		// short pauses (same / next second) and pauses that put the next append at the far edge of the look-back window
+		// of a later listing (twice the token expiration: the previous entry is then just inside, on, or just outside it)
+		edge := int((2 * walExpiration()) / time.Millisecond)
+		pause := t.Pick(0, 0, 300, 1100, 2500, edge, edge, edge, edge+700)
+		if pause == edge {
+			pause -= t.Range(0, 12) * 500 // (an append takes a few calls of up to 700 ms each)
+		}
 		tasks = append(tasks, w.Go(cl, "append", func() (interface{}, error) {
 			l := wal.New(cl.Store(mutB), cl.Store(walB), wal.Logger(nopLog))
 			for i, p := range payloads {
@@ -125,10 +144,26 @@ func runC19(rc *RunCtx) *simkit.Violation {
 	rl = rt.Result.(*wal.WAL)
 	for i := 0; i < 3 && len(all) > 0; i++ {
 		from := all[t.Choose(len(all))].token
-		if t.Bool(1, 3) {
-			// a synthetic token between / around the issued ones
+		if mode := t.Choose(3); mode > 0 {
+			// a synthetic token between / around the issued ones, or one whose look-back window starts in the very
+			// second of an issued one
 			k, _ := ksuid.Parse(from)
-			syn, _ := ksuid.FromParts(k.Time().Add(time.Duration(t.Range(-3, 3))*time.Second), make([]byte, 16))
+			if mode == 2 {
+				k, _ = ksuid.FromParts(k.Time().Add(2*walExpiration()), make([]byte, 16))
+			}
+			// (its random part: lowest, highest, or anything: none of it may matter, a token stands for its second)
+			part := make([]byte, 16)
+			switch t.Choose(3) {
+			case 1:
+				part = bytes.Repeat([]byte{0xff}, 16)
+			case 2:
+				part = t.Bytes(16)
+			}
+			shift := t.Range(-3, 3)
+			if mode == 2 {
+				shift = t.Pick(0, 0, 0, -1, 1)
+			}
+			syn, _ := ksuid.FromParts(k.Time().Add(time.Duration(shift)*time.Second), part)
 			from = syn.String()
 		}
 		max := t.Pick(1, 2, 3, 5, 1000)
@@ -149,6 +184,11 @@ func runC19(rc *RunCtx) *simkit.Violation {
 		for _, k := range keys {
 			if k >= start.String() && len(want) < max {
 				want = append(want, k)
+			}
+		}
+		if len(want) > 0 {
+			if wk, _ := ksuid.Parse(want[0]); wk.Time().Unix() == start.Time().Unix() {
+				w.Probe("entry-in-first-second-of-window")
 			}
 		}
 		if strings.Join(got, ",") != strings.Join(want, ",") {
